@@ -46,8 +46,9 @@ Fixpoint read_symbols (fuel : nat) (n : Z) (strings : list (list Z)) (bs : list 
           match read32 r1 with
           | None => None
           | Some (off, r2) =>
-              match nth_error strings (Z.to_nat idx) with
-              | None => None                              (* strings.at(strIndex) throws *)
+              match (if idx <? Z.of_nat (List.length strings) then nth_error strings (Z.to_nat idx) else None) with
+              | None => None                              (* strings.at(strIndex) throws; the index is compared as a number
+                                                             first so that a 32-bit index never becomes a unary nat *)
               | Some name => match read_symbols f (n - 1) strings r2 with
                              | Some r => Some ((name, off) :: r)
                              | None => None
@@ -157,6 +158,8 @@ Proof.
     replace (Z.of_nat (S (List.length offs)) <=? 0) with false by (symmetry; apply Z.leb_gt; lia).
     rewrite <- !app_assoc. rewrite read32_le32, read32_le32.
     unfold W32 in *. rewrite (Z.mod_small (Z.of_nat (List.length pre))) by lia.
+    replace (Z.of_nat (List.length pre) <? Z.of_nat (List.length (pre ++ nm :: names))) with true
+      by (symmetry; apply Z.ltb_lt; rewrite app_length; cbn [List.length]; lia).
     rewrite Nat2Z.id. rewrite nth_error_app2 by lia. rewrite Nat.sub_diag. cbn [nth_error].
     replace (pre ++ nm :: names) with ((pre ++ [nm]) ++ names) by (rewrite <- app_assoc; reflexivity).
     replace (Z.of_nat (List.length pre) + 1) with (Z.of_nat (List.length (pre ++ [nm]))) by (rewrite app_length; cbn; lia).
